@@ -198,16 +198,22 @@ static J gen_cooling(Chooser &ch)
   t["top temperature"] = ch.lattice(250, 320, 5);
   t["bottom temperature"] = ch.chance(35) ? -1.0 : ch.lattice(1400, 1900, 50);
   const double xr = m.kernel[0] + (ch.flip() ? 1 : -1) * ch.lattice(1200e3, 4000e3, 100e3);
+  bool kinked_ridge = false;
   if (kind != "plate model constant age")
     {
       // the ridge x = xr through 2..4 points; a constant spreading velocity or one per ridge point (linear in between)
-      const int np = static_cast<int>(ch.range(2, 4));
+      // 35%: a kinked ridge (3..5 points, each up to 1000 km off the line x = xr, the line itself closer to the plate): the closest
+      // ridge point is then the closest point of the whole polyline, which need not lie on the first segment the query projects onto
+      const bool kinked = ch.chance(35);
+      const int np = static_cast<int>(kinked ? ch.range(3, 5) : ch.range(2, 4));
       J rd = J::arr(), vs = J::arr();
       for (int i = 0; i < np; ++i)
         {
-          rd.push(jp(xr, m.kernel[1] - 6000e3 + 12000e3 * i / (np - 1.0)));
+          if (kinked) rd.push(jp(m.kernel[0] + (xr - m.kernel[0]) * 0.5 + ch.lattice(-1000e3, 1000e3, 50e3), m.kernel[1] - 3000e3 + 6000e3 * i / (np - 1.0) + ch.lattice(-400e3, 400e3, 50e3)));
+          else rd.push(jp(xr, m.kernel[1] - 6000e3 + 12000e3 * i / (np - 1.0)));
           vs.push(J(ch.lattice(0.01, 0.15, 0.005)));
         }
+      kinked_ridge = kinked;
       t["ridge coordinates"] = J::arr({rd});
       if (ch.chance(50)) t["spreading velocity"] = ch.real(0.01, 0.15);
       else t["spreading velocity"] = J::arr({J::arr({J(0.0), J::arr({vs})})});
@@ -218,6 +224,7 @@ static J gen_cooling(Chooser &ch)
   g::GW w; w.fr = fr; w.root = root; w.feats.push_back(m);
   J c = J::obj();
   c["world"] = root.dump(); c["xr"] = xr;
+  if (kinked_ridge) c["kinked"] = true;
   c["queries"] = g::gen_queries(ch, w, static_cast<int>(ch.range(5, 25)), 100);
   return c;
 }
@@ -300,7 +307,32 @@ static Result check_cooling(const J &c)
           // the coordinate along the ridge: y (cartesian ridge x = xr) or the longitude (ridge along the equator)
           const double u = sph ? q.at("written_lon").num() : q.at("nat")[1].num();
           dist = sph ? c.at("R").num() * std::fabs(q.at("nat")[1].num()) * DEG : std::fabs(q.at("nat")[0].num() - c.at("xr").num());
-          if (t.at("spreading velocity").is_num()) vel = t.at("spreading velocity").num();
+          if (c.has("kinked"))
+            {
+              // the closest point of the ridge polyline (per segment: the foot of the perpendicular, clamped to the segment) and the
+              // spreading velocity interpolated linearly along that segment at that point
+              const long double px = q.at("nat")[0].num(), py = q.at("nat")[1].num();
+              long double best = -1, bx = 0, by = 0, bv = 0;
+              std::vector<std::array<long double, 4>> cand;
+              for (size_t i = 0; i + 1 < rd.size(); ++i)
+                {
+                  const long double ax = rd[i][0].num(), ay = rd[i][1].num(), ex = rd[i + 1][0].num() - ax, ey = rd[i + 1][1].num() - ay;
+                  long double s = ((px - ax) * ex + (py - ay) * ey) / (ex * ex + ey * ey);
+                  s = std::max(0.0L, std::min(1.0L, s));
+                  const long double cx = ax + s * ex, cy = ay + s * ey, d = std::sqrt((px - cx) * (px - cx) + (py - cy) * (py - cy));
+                  long double v = t.at("spreading velocity").is_num() ? static_cast<long double>(t.at("spreading velocity").num()) : 0.0L;
+                  if (!t.at("spreading velocity").is_num()) { const J &vs = t.at("spreading velocity")[0][1][0]; v = vs[i].num() + s * (vs[i + 1].num() - vs[i].num()); }
+                  cand.push_back({{d, cx, cy, v}});
+                  if (best < 0 || d < best) { best = d; bx = cx; by = cy; bv = v; }
+                }
+              bool tie = false; // another, different ridge point at (almost) the same distance: which one is "the closest" is rounding
+              for (auto &cd : cand) if (std::fabs(cd[0] - best) <= 1e-9L * best + 1e-3L && std::hypot(cd[1] - bx, cd[2] - by) > 1.0L && std::fabs(cd[3] - bv) > 1e-12L) tie = true;
+              if (tie) { r.classes.push_back("two ridge points equally close(skipped)"); continue; }
+              dist = static_cast<double>(best); vel = static_cast<double>(bv);
+              r.classes.push_back("kinked ridge");
+              if (!cand.empty() && cand[0][0] > best * (1 + 1e-6)) r.classes.push_back("kinked ridge, closest point not on the first segment");
+            }
+          else if (t.at("spreading velocity").is_num()) vel = t.at("spreading velocity").num();
           else
             {
               const J &vs = t.at("spreading velocity")[0][1][0];
